@@ -243,11 +243,11 @@ def rule_partition(report, prog):
         lb = find(f.node, 'last_block_number = 1 + ($L + 15) // 16')
         report.check(len(lb) == 1, 'C01-R4', key(f.qname, 'last block = 1 + ceil(len / 16)'), f.loc(), 'block count formula changed')
     f = prog.func('nfc.tag.tt3.Type3Tag.NDEF._write_ndef_data')
-    okk = bool(find(f.node, 'data = data + bytearray(-len(data) % 16)')) and bool(find(f.node, "attributes['ln'] = len(data)"))
+    okk = bool(find(f.node, 'data += bytearray(-len(data) % 16)')) and bool(find(f.node, "attributes['ln'] = len(data)"))
     cfg = cfg_of(f)
     if okk:
         a = cfg.node_of(find(f.node, "attributes['ln'] = len(data)")[0][0])
-        b = cfg.node_of(find(f.node, 'data = data + bytearray(-len(data) % 16)')[0][0])
+        b = cfg.node_of(find(f.node, 'data += bytearray(-len(data) % 16)')[0][0])
         okk = cfg.dominates(a, b)
     report.check(okk, 'C01-R4', key(f.qname, 'Ln is the unpadded length, data padded to the block size afterwards'), f.loc(),
                  'length / padding order changed')
